@@ -21,7 +21,7 @@ LEVEL = 'other'
 UNITS = ['src/pointset/algorithms/PointSetPreconditioner.cpp', 'src/containers/boundingbox/AxisAlignedBoundingBox.cpp',
          'src/containers/boundingbox/OrientedBoundingBox.cpp', 'verif:inst_math.cpp']
 ENGINES = 'E-ORD + E-INT + E-ALG + E-SIB over romea-facts'
-TECHNIQUE = 'compute() run (real loops over concrete sequences) on witness sets of either parity, unbounded receivers in the include() step, include() stepped with the class predicates inlined, user-written copy assignment (sweep H3), containment predicate on cells just outside a face and on tiny boxes, homogeneous coordinate of the mean, statements after the point loop stepped on witness extrema (tiny and huge sides), constructor reaches compute() for every set size, returns in front of the box-frame test read on witness boxes, include() with control flow stepped on zero-width intervals, loop coverage of the point set on witness sizes, sweep of every function read (and its in-repo callees) for frozen function-local statics, single precision inside double computations, lossy copy constructors, presence- or argument-keyed member caches, reference members bound to constructor arguments, loop accumulators that are members, members derived in the constructor and not refreshed by setters, results returned by reference to a member buffer, members filled from an argument under a condition that ignores it, hidden non-virtual base members, self-bound reference members, reductions that accumulate in float; tolerance exits (isIdentity), head(n) coverage of the Cartesian axes by the scale; E-STEP: extracted loop bodies / predicates evaluated on witness states of a one-coordinate abstraction (running extrema from the seed state, containment incl. zero extents and IEEE 0/0); structural matching of the normalised (Eigen wrappers erased) expression trees against the closed-box / hull / extent forms; constant-folded accumulator seeds; exact algebra for the interval round trip'
+TECHNIQUE = 'toAxisAlignedBoundingBox() read by value on a symbolic box against |R| h on rotations about every axis, work skipped on the identity of the argument object (sweep H16), compute() run (real loops over concrete sequences) on witness sets of either parity, unbounded receivers in the include() step, include() stepped with the class predicates inlined, user-written copy assignment (sweep H3), containment predicate on cells just outside a face and on tiny boxes, homogeneous coordinate of the mean, statements after the point loop stepped on witness extrema (tiny and huge sides), constructor reaches compute() for every set size, returns in front of the box-frame test read on witness boxes, include() with control flow stepped on zero-width intervals, loop coverage of the point set on witness sizes, sweep of every function read (and its in-repo callees) for frozen function-local statics, single precision inside double computations, lossy copy constructors, presence- or argument-keyed member caches, reference members bound to constructor arguments, loop accumulators that are members, members derived in the constructor and not refreshed by setters, results returned by reference to a member buffer, members filled from an argument under a condition that ignores it, hidden non-virtual base members, self-bound reference members, reductions that accumulate in float; tolerance exits (isIdentity), head(n) coverage of the Cartesian axes by the scale; E-STEP: extracted loop bodies / predicates evaluated on witness states of a one-coordinate abstraction (running extrema from the seed state, containment incl. zero extents and IEEE 0/0); structural matching of the normalised (Eigen wrappers erased) expression trees against the closed-box / hull / extent forms; constant-folded accumulator seeds; exact algebra for the interval round trip'
 EXPLANATION = ('Containment predicates, interval hull, box<->interval conversion, oriented-box enclosure and point-set extrema are read from the '
                'instantiated ASTs, normalised to s-expressions and compared with the forms the statement quotes (operator, reduction, operand roles); '
                'accumulator seeds are compared with the numeric limits of the instantiated scalar type via the front end\'s constant evaluator.')
